@@ -154,6 +154,37 @@ def fast_order(a, b):
     return (T if rx < ry else F), (T if rx == ry else F)
 
 
+I2F = z3.Function('i2f', IntS, z3.RealSort())
+TWO53 = 2 ** 53
+
+
+def i2f(it, i):
+    """int -> float conversion with IEEE rounding: exact up to 2**53, beyond that some whole
+    number within relative error 2**-53 (the only place where float rounding is modelled)"""
+    r = I2F(i)
+    ri = z3.ToReal(i)
+    small = z3.And(i <= TWO53, i >= -TWO53)
+    it.assume_axiom(z3.If(small, r == ri,
+                          z3.And(z3.ToReal(z3.ToInt(r)) == r,
+                                 (r - ri) * TWO53 <= z3.If(i >= 0, ri, -ri),
+                                 (ri - r) * TWO53 <= z3.If(i >= 0, ri, -ri),
+                                 z3.If(i >= 0, r >= TWO53, r <= -TWO53))))
+    it.assume_axiom(z3.ToReal(z3.ToInt(r)) == r)
+    # an int within the float range converts to a float within the range (larger ones raise OverflowError)
+    it.assume_axiom(z3.Implies(z3.And(ri <= FMAXR, ri >= -FMAXR), z3.And(r <= FMAXR, r >= -FMAXR)))
+    return r
+
+
+def fnum(it, t):
+    """real value of a finite operand in a float operation"""
+    c = ctor(t)
+    if c == 'IntV':
+        return i2f(it, t.arg(0))
+    if c == 'EnumV':
+        return i2f(it, t.arg(2))
+    return num(t)
+
+
 class Ops:
     def __init__(self, world):
         self.world = world
@@ -174,11 +205,98 @@ class Ops:
             it.raise_(exc)
 
     # ------------------------------------------------------------- binop
+    def float_result(self, it, r):
+        """a real result as a python float: overflow to +-inf is a fork, not an if-term"""
+        r = simp(r)
+        if it.no_float_overflow:
+            # contract option assume_no_float_overflow: intermediate results stay within +-float_max (listed assumption)
+            it.assume(z3.And(r <= FMAXR, r >= -FMAXR))
+            return SV(V.FloatV(r))
+        k = it.choose([r > FMAXR, r < -FMAXR, z3.And(r <= FMAXR, r >= -FMAXR)], 'float overflow')
+        return SV([V.PInf, V.NInf, V.FloatV(r)][k])
+
+    def num_binop(self, it, op, x, y):
+        """arithmetic on two values with known numeric constructors; None if not applicable"""
+        kx, ky = nk(x), nk(y)
+        if kx is None or ky is None or kx[0] == 'other' or ky[0] == 'other':
+            return None
+        if not isinstance(op, (ast.Add, ast.Sub, ast.Mult, ast.Div)):
+            return None
+        if kx[0] == 'int' and ky[0] == 'int' and not isinstance(op, ast.Div):
+            a, b = kx[1], ky[1]
+            return SV(V.IntV(simp({ast.Add: a + b, ast.Sub: a - b, ast.Mult: a * b}[type(op)])))
+        # float operation: an int operand is converted first (OverflowError when too large)
+        for k_, t in ((kx, x), (ky, y)):
+            if k_[0] == 'int' and ctor(t) != 'BoolV':
+                big = z3.Or(z3.ToReal(k_[1]) > FMAXR, z3.ToReal(k_[1]) < -FMAXR)
+                if isinstance(op, ast.Div) and ky[0] in ('int', 'real'):
+                    pass
+                self.outcome(it, [(big, 'OverflowError'), (z3.Not(big), None)], 'int too large for float')
+        if isinstance(op, ast.Div) and ky[0] in ('int', 'real'):
+            yz = (ky[1] == 0)
+            self.outcome(it, [(yz, 'ZeroDivisionError'), (z3.Not(yz), None)], 'division by zero')
+        if kx[0] == 'nan' or ky[0] == 'nan':
+            return SV(V.NaN)
+        # int -> float rounding is modelled for the additive conversion idiom (value + 0.0, value - x);
+        # products and quotients are exact reals (assumption A1)
+        conv = fnum if isinstance(op, (ast.Add, ast.Sub)) else (lambda it_, t: num(t))
+        fx = conv(it, x) if kx[0] in ('int', 'real') else None
+        fy = conv(it, y) if ky[0] in ('int', 'real') else None
+        sx = {'pinf': 1, 'ninf': -1}.get(kx[0])
+        sy = {'pinf': 1, 'ninf': -1}.get(ky[0])
+        if isinstance(op, (ast.Add, ast.Sub)):
+            if sy is not None and isinstance(op, ast.Sub):
+                sy = -sy
+            if sx is not None and sy is not None:
+                return SV(V.NaN if sx != sy else (V.PInf if sx > 0 else V.NInf))
+            if sx is not None or sy is not None:
+                return SV(V.PInf if (sx or sy) > 0 else V.NInf)
+            return self.float_result(it, fx + fy if isinstance(op, ast.Add) else fx - fy)
+        if isinstance(op, ast.Mult):
+            if sx is not None or sy is not None:
+                # inf * 0 is nan; otherwise the sign product
+                other, so = (fy, sx) if sx is not None else (fx, sy)
+                if sx is not None and sy is not None:
+                    return SV(V.PInf if sx * sy > 0 else V.NInf)
+                k = it.choose([other == 0, other > 0, other < 0], 'inf * x')
+                if k == 0:
+                    return SV(V.NaN)
+                return SV(V.PInf if (so > 0) == (k == 1) else V.NInf)
+            if not (z3.is_rational_value(simp(fx)) or z3.is_rational_value(simp(fy))):
+                it.nonlinear = True
+            return self.float_result(it, fx * fy)
+        # Div
+        if sx is not None and sy is not None:
+            return SV(V.NaN)
+        if sy is not None:
+            return SV(V.FloatV(z3.RealVal(0)))
+        if sx is not None:
+            k = it.choose([fy > 0, fy < 0], 'inf / x')
+            return SV(V.PInf if (sx > 0) == (k == 0) else V.NInf)
+        # (a * d) / d is a
+        sfx, sfy = simp(fx), simp(fy)
+        if z3.is_mul(sfx) and any(ch.eq(sfy) for ch in sfx.children()):
+            rest = list(sfx.children())
+            for j, ch in enumerate(rest):
+                if ch.eq(sfy):
+                    del rest[j]
+                    break
+            return self.float_result(it, rest[0] if len(rest) == 1 else z3.Product(*rest))
+        # quotient as a fresh real tied by a product (avoids symbolic division in the solver)
+        q = it.fresh('quot', z3.RealSort())
+        if not z3.is_rational_value(simp(fy)):
+            it.nonlinear = True
+        it.assume(q * fy == fx)
+        return self.float_result(it, q)
+
     def binop(self, it, op, a, b, inplace=False):
         if isinstance(a, PV) or isinstance(b, PV):
             raise Unsupported('binary operation on function/class value')
         a, b = it.split_kind(a), it.split_kind(b)
         x, y = a.t, b.t
+        r = self.num_binop(it, op, x, y)
+        if r is not None:
+            return r
         nx, ny = vals.is_numlike(x), vals.is_numlike(y)
         bothnum = z3.And(nx, ny)
         bothint = z3.And(intlike(x), intlike(y))
@@ -195,11 +313,12 @@ class Ops:
             self.outcome(it, [(z3.And(z3.Not(bothnum), z3.Not(seqok)), 'TypeError'),
                               (ovf, 'OverflowError'),
                               (z3.Or(z3.And(bothnum, z3.Not(ovf)), seqok), None)], 'add/sub')
-            ry = num(y) if add else -num(y)
+            fx, fy = fnum(it, x), fnum(it, y)
+            ry = fy if add else -fy
             yp, yn = (V.is_PInf(y), V.is_NInf(y)) if add else (V.is_NInf(y), V.is_PInf(y))
             fres = z3.If(z3.Or(anynan, z3.And(V.is_PInf(x), yn), z3.And(V.is_NInf(x), yp)), V.NaN,
                          z3.If(z3.Or(V.is_PInf(x), yp), V.PInf,
-                               z3.If(z3.Or(V.is_NInf(x), yn), V.NInf, vals.mkfloat(num(x) + ry))))
+                               z3.If(z3.Or(V.is_NInf(x), yn), V.NInf, vals.mkfloat(fx + ry))))
             ires = V.IntV(ival(x) + (ival(y) if add else -ival(y)))
             res = z3.If(bothint, ires, fres)
             if add:
@@ -228,7 +347,7 @@ class Ops:
             nan = z3.Or(anynan, z3.And(isinf(x), zero_y), z3.And(isinf(y), zero_x))
             inf = z3.Or(isinf(x), isinf(y))
             s = sgn(x) * sgn(y)
-            fres = z3.If(nan, V.NaN, z3.If(inf, z3.If(s > 0, V.PInf, V.NInf), vals.mkfloat(num(x) * num(y))))
+            fres = z3.If(nan, V.NaN, z3.If(inf, z3.If(s > 0, V.PInf, V.NInf), vals.mkfloat(fnum(it, x) * fnum(it, y))))
             return SV(simp(z3.If(bothint, V.IntV(ival(x) * ival(y)), fres)))
         if isinstance(op, ast.Div):
             zero = z3.And(bothnum, vals.is_finite(y), num(y) == 0)
@@ -239,7 +358,7 @@ class Ops:
             nan = z3.Or(anynan, z3.And(isinf(x), isinf(y)))
             fres = z3.If(nan, V.NaN,
                          z3.If(isinf(x), z3.If(sgn(x) * sgn(y) >= 0, V.PInf, V.NInf),
-                               z3.If(isinf(y), V.FloatV(z3.RealVal(0)), vals.mkfloat(num(x) / num(y)))))
+                               z3.If(isinf(y), V.FloatV(z3.RealVal(0)), vals.mkfloat(fnum(it, x) / fnum(it, y)))))
             return SV(simp(fres))
         if isinstance(op, (ast.FloorDiv, ast.Mod)):
             fin = z3.And(vals.is_finite(x), vals.is_finite(y))
@@ -302,21 +421,21 @@ class Ops:
         if tag == 'StrV':
             r = it.fresh('rep', StrS)
             src = V.s(seq)
-            it.assume(z3.Length(r) == nn * z3.Length(src))
-            it.assume(z3.Implies(z3.Length(src) == 1, z3.ForAll([i], z3.Implies(
+            it.assume_axiom(z3.Length(r) == nn * z3.Length(src))
+            it.assume_axiom(z3.Implies(z3.Length(src) == 1, z3.ForAll([i], z3.Implies(
                 z3.And(0 <= i, i < nn), z3.SubString(r, i, 1) == src))))
             return SV(V.StrV(r))
         if tag == 'BytesV':
             r = it.fresh('rep', z3.SeqSort(IntS))
             src = V.by(seq)
-            it.assume(z3.Length(r) == nn * z3.Length(src))
-            it.assume(z3.Implies(z3.Length(src) == 1, z3.ForAll([i], z3.Implies(
+            it.assume_axiom(z3.Length(r) == nn * z3.Length(src))
+            it.assume_axiom(z3.Implies(z3.Length(src) == 1, z3.ForAll([i], z3.Implies(
                 z3.And(0 <= i, i < nn), r[i] == src[0]))))
             return SV(V.BytesV(r))
         r = it.fresh('rep', vals.SeqVal)
         src = V.titems(seq) if tag == 'TupleV' else V.litems(seq)
-        it.assume(z3.Length(r) == nn * z3.Length(src))
-        it.assume(z3.Implies(z3.Length(src) == 1, z3.ForAll([i], z3.Implies(
+        it.assume_axiom(z3.Length(r) == nn * z3.Length(src))
+        it.assume_axiom(z3.Implies(z3.Length(src) == 1, z3.ForAll([i], z3.Implies(
             z3.And(0 <= i, i < nn), r[i] == src[0]))))
         return SV(V.TupleV(r) if tag == 'TupleV' else V.ListV(r))
 
@@ -439,7 +558,7 @@ class Ops:
                               (z3.And(intlike(i), z3.Or(ii >= n, ii < -n)), 'IndexError'),
                               (z3.And(intlike(i), ii < n, ii >= -n), None)], 'index')
             pos = z3.If(ii >= 0, ii, n + ii)
-            return SV(simp(items[pos]), elty)
+            return SV(simp(vals.seq_at(items, simp(pos))), elty)
         if k == 1:
             if obj.ty and obj.ty.startswith('enumdict'):
                 return self.world.calls.enum_getitem(it, obj, idx)
@@ -556,9 +675,27 @@ class Ops:
         return self.world.calls.setattr(it, obj, name, v)
 
     def fstring(self, it, e):
-        r = it.fresh('fstr', Val)
-        it.assume(V.is_StrV(r))
-        return SV(r)
+        """f-string: constant parts and plainly interpolated strings are exact, everything else is opaque text"""
+        parts = e.values if isinstance(e, ast.JoinedStr) else [e]
+        out = []
+        for p in parts:
+            if isinstance(p, ast.Constant):
+                out.append(z3.StringVal(p.value))
+                continue
+            if p.conversion == -1 and p.format_spec is None:
+                v = it.ev(p.value)
+                if isinstance(v, SV):
+                    v = it.split_kind(v)
+                    if ctor(v.t) == 'StrV':
+                        out.append(v.t.arg(0))
+                        continue
+                    out.append(STR_OF(v.t))
+                    continue
+            r = it.fresh('fstr', StrS)
+            out.append(r)
+        if not out:
+            return SV(const(''))
+        return SV(V.StrV(out[0] if len(out) == 1 else z3.Concat(*out)))
 
     def with_enter(self, it, cm, item):
         return self.world.calls.with_enter(it, cm, item)
